@@ -23,42 +23,59 @@ import (
 	"verif/engine/gx"
 )
 
+// oracle evaluates C27 for every replica of the group independently (its own latest fuse,
+// its own penalty).
 func oracle(c *rig.StepCtx) (string, map[string]string) {
 	if c.Died != "" {
 		return "the " + c.Died + " health-check loop returned by itself", map[string]string{"kind": "health_check_loop_died"}
 	}
-	cameUp := !c.Before.ReplicaUp && c.After.ReplicaUp
+	for i := range c.X.Rep {
+		if msg, f := oracleRep(c, i); msg != "" {
+			f["idx"] = fmt.Sprint(i)
+			if len(c.X.Rep) > 1 {
+				msg = fmt.Sprintf("replica %d: %s", i, msg)
+			}
+			return msg, f
+		}
+	}
+	return "", nil
+}
+
+func oracleRep(c *rig.StepCtx, i int) (string, map[string]string) {
+	x := c.X.Rep[i]
+	before, after := c.Before.ReplicaUp[i], c.After.ReplicaUp[i]
+	cameUp := !before && after
 	gate := "open"
-	if !c.X.GateOpen {
+	if !x.GateOpen {
 		gate = "closed"
 	}
 	probe := "n/a"
 	if c.X.Round == "R" {
 		probe = "failed"
-		if c.X.Pass {
+		if x.Pass {
 			probe = "passed"
 		}
 	}
 	feat := func(kind string) map[string]string {
 		return map[string]string{"kind": kind, "gate": gate, "probe": probe}
 	}
-	if c.FusedDownBefore && cameUp {
+	if c.FusedDownBefore[i] && cameUp {
 		switch {
 		case c.X.Round != "R":
 			return "fused replica marked up by an event that is not a replica probe round", feat("up_without_probe_round")
-		case !c.X.GateOpen && c.Cfg.Policy == "hard":
+		case !x.GateOpen && c.Cfg.Policy == "hard":
 			return "fused replica marked up before latest fuse + cool-down", feat("up_before_cooldown")
-		case !c.X.GateOpen:
-			return fmt.Sprintf("fused replica marked up while %d consecutive successful probes are still required", c.X.Need), feat("up_before_penalty_served")
-		case !c.X.Pass:
+		case !x.GateOpen:
+			return fmt.Sprintf("fused replica marked up while %d consecutive successful probes are still required", x.Need), feat("up_before_penalty_served")
+		case !x.Pass:
 			return "fused replica marked up in a round whose probe failed", feat("up_without_passed_probe")
 		}
 	}
-	if c.FusedDownBefore && !c.Before.ReplicaUp && c.X.Round == "R" && c.X.Pass && !c.X.SyncBad && c.Before.MasterUp && !c.X.ElapsedOver && c.X.GateOpen && !c.After.ReplicaUp {
+	if c.FusedDownBefore[i] && !before && c.X.Round == "R" && x.Pass && !x.SyncBad && c.Before.MasterUp && !x.ElapsedOver && x.GateOpen && !after {
 		return "fused replica still down although its recovery condition holds and the probe passed", feat("not_up_although_condition_holds")
 	}
-	if c.Cfg.Policy == "gradual" && (c.ImplN != c.X.N || c.ImplNeed != c.X.Need) {
-		return fmt.Sprintf("gradual penalty: level/pending are %d/%d, documented growth gives %d/%d", c.ImplN, c.ImplNeed, c.X.N, c.X.Need), feat("penalty_counter_mismatch")
+	if c.Cfg.Policy == "gradual" && (c.ImplN[i] != x.N || c.ImplNeed[i] != x.Need) {
+		return fmt.Sprintf("gradual penalty: level/pending are %d/%d, documented growth gives %d/%d", c.ImplN[i], c.ImplNeed[i], x.N, x.Need), feat("penalty_counter_mismatch")
 	}
 	return "", nil
 }
@@ -77,6 +94,11 @@ func main() {
 			cfgs = append(cfgs, rig.Cfg{Policy: "gradual", DownAfter: da, LagLimit: 10, W: wm[0], M: wm[1], Start: start})
 		}
 	}
+	// two replicas in one slave group (strategies installed by the real InitFuseRecoveryPolicy):
+	// per-replica recovery state must stay independent
+	cfgs = append(cfgs,
+		rig.Cfg{Policy: "hard", DownAfter: 12, LagLimit: 0, W: 3, M: 1, Cooldown: 5, Start: start, Replicas: 2, Depth: 5},
+		rig.Cfg{Policy: "gradual", DownAfter: 12, LagLimit: 0, W: 3, M: 1, Start: start, Replicas: 2, Depth: 5})
 	rig.Main(&rig.Plan{ID: "C27", Level: "model_checking", Configs: cfgs, Depth: 6, FullDepth: 2, Oracle: oracle,
 		Assume: []string{"'taken down by the circuit breaker' = the breaker fired since the replica was last up; 'latest fuse' = the latest time the breaker fired"}})
 }
